@@ -220,8 +220,28 @@ class Session:
         self.rec.pull()
         at = len(self.rec.recs)
         self.rec.recs.append(("C", code))
+        # watchdog: the alarm of guard() does not survive expect(timeout=..) (it resets ITIMER_REAL and
+        # the SIGALRM handler), so a second, thread-based one kills the daemon's process group, which
+        # unblocks read()/waitpid() on the python side
+        import threading
+        fired = []
+
+        def _kill():
+            fired.append(1)
+            try:
+                os.killpg(self.daemon_pid, signal.SIGKILL)
+            except (OSError, TypeError):
+                pass
+        dog = threading.Timer(OP_TIMEOUT + 5, _kill)
+        dog.daemon = True
+        dog.start()
         try:
-            v = guard(OP_TIMEOUT, fn)
+            try:
+                v = guard(OP_TIMEOUT, fn)
+            finally:
+                dog.cancel()
+            if fired:
+                raise Timeout()
             res = "1" if (v if truth is None else truth(v)) else "0"
             self.last = res
         except Timeout:
@@ -237,6 +257,12 @@ class Session:
             res = "X"
             v = Err(type(e).__name__)
             self.last = type(e).__name__
+            if fired:
+                res, v, self.last = "T", Err("timeout"), "timeout"
+                self.oracle.append({"what": "operation %r blocked for more than %d s although the daemon was alive: "
+                                            "python and the daemon were both waiting (deadlock)" % (code, OP_TIMEOUT),
+                                    "session": self.name,
+                                    "last_lines": [f"{k} {t[:80]}" for k, t in self.rec.recs[-8:]]})
         self.rec.pull()
         seg = self.rec.recs[at + 1:]
         if code[0] in "pke":
